@@ -26,7 +26,13 @@ def run(tier):
     c = Check("C06", tier)
     exe = driver("asan")
     # 17/18: growing bit sets (vector<bool>, DynamicBitset; 18 with unsetFlag), 19: key-value container (std::map)
-    cfgs, beh = model_behaviours(c, tier, cfgsel=[4, 6, 9, 10, 11, 12, 17, 18, 19])
+    if tier == "quick":
+        cfgs, beh = model_behaviours(c, tier, cfgsel=[4, 6, 9, 10, 11, 12, 17, 18, 19])
+    else:
+        # the configurations added later keep two uses per line in the thorough tier (budget), like configuration 16 in C03
+        cfgs, beh = model_behaviours(c, tier, cfgsel=[4, 6, 9, 10, 11, 12])
+        cfgs2, beh2 = model_behaviours(c, tier, cfgsel=[17, 18, 19], maxuses=2)
+        beh += beh2
     script = os.path.join(c.wd, "replay.ndjson")
     n = behaviours_script(cfgs, beh, script)
     c.notes.append("R: %d distinct (configuration, argv) behaviours with container destinations replayed" % n)
